@@ -727,6 +727,10 @@ Definition case_eco : R bytes :=
   if k =? 0 then ret (show_outcome show_eco (Err ProtocolFormat))
   else let* v := rd_tree 12 in ret (show_outcome show_eco (eco_map v)).
 
+(* family 53: accepted timeout settings used by an HTTP-based query (Eco against a port nobody listens on):
+   the HTTP client is not modelled, the model abstains; the check judges the implementation alone *)
+Definition case_http_settings : R bytes := ret model_abstains.
+
 Definition run_case_R : R bytes :=
   let* fam := rd_u8 in
   if fam =? 1 then case_bufops
@@ -753,6 +757,7 @@ Definition run_case_R : R bytes :=
   else if fam =? 43 then case_gamespy 3
   else if fam =? 50 then case_game
   else if fam =? 52 then case_eco
+  else if fam =? 53 then case_http_settings
   else if fam =? 110 then case_spec_valve
   else if fam =? 150 then case_spec_game
   else if fam =? 133 then case_spec_minecraft
